@@ -2,6 +2,9 @@ import DudModel.Blake3
 import DudModel.World
 import DudModel.Render
 import DudModel.Generated.Facts
+import DudModel.Hasher
+import DudModel.Same
+import DudModel.Lock
 /-!
 # `dudmodel` — line-protocol driver of the executable model
 
@@ -405,6 +408,90 @@ partial def ownerLoop (inp out : IO.FS.Stream) : IO Unit := do
   if !l.isEmpty then out.putStrLn (ownerVerdict l)
   ownerLoop inp out
 
+/-! ## checksum reader (stream S7), path algebra (S6), stage definitions -/
+
+def blakeHasher : Hasher.HasherSpec Bytes :=
+  { reset := fun _ => [], write := fun s c => s ++ c, sum := fun s => (Blake3.hash (ba s)).toList }
+
+def hexBytes (b : Bytes) : String := (hexOf b)
+
+/-- split `data` into the scripted chunk sizes; what the script does not cover is one last read -/
+def scriptChunks (data : Bytes) : List Nat → List Bytes
+  | [] => if data.isEmpty then [] else [data]
+  | n :: r => data.take n :: scriptChunks (data.drop n) r
+
+partial def sumLoop (inp out : IO.FS.Stream) (pool : Bytes) : IO Unit := do
+  let line ← inp.getLine
+  if line.isEmpty then return ()
+  match (line.trimAscii.toString.splitOn " ").filter (· != "") with
+  | bufS :: dataS :: rest =>
+    let buf := if bufS.toNat! == 0 then 65536 else bufS.toNat!
+    let data : Bytes := if dataS.startsWith "g:" then (parseContent dataS).toList else unhex dataS
+    let chunkSizes := match rest with
+      | c :: _ => if c == "-" then [] else (c.splitOn ",").map String.toNat!
+      | [] => []
+    let fails := rest.length > 1 && rest[1]! == "err"
+    -- a failing reader delivers only the scripted chunks
+    let reads := if fails then (scriptChunks data chunkSizes).take chunkSizes.length else scriptChunks data chunkSizes
+    let st := Hasher.copyLoop blakeHasher (Hasher.readResults buf reads)
+      (if Dud.Facts.hasherResetBeforeCopy then blakeHasher.reset pool else pool)
+    if fails then out.putStrLn "ERR"
+    else out.putStrLn (Blake3.toHex (ba (blakeHasher.sum st)))
+    sumLoop inp out st
+  | _ => sumLoop inp out pool
+
+partial def pathLoop (inp out : IO.FS.Stream) : IO Unit := do
+  let line ← inp.getLine
+  if line.isEmpty then return ()
+  let l := if line.endsWith "\n" then (line.dropEnd 1).toString else line
+  match l.splitOn "\t" with
+  | ["clean", a] => out.putStrLn (hexOf (Path.clean (unhex a)))
+  | ["dir", a] => out.putStrLn (hexOf (Path.dir (unhex a)))
+  | ["join", a, b] => out.putStrLn (hexOf (Path.join [unhex a, unhex b]))
+  | ["rel", a, b] => out.putStrLn (match Path.rel (unhex a) (unhex b) with | some r => hexOf r | none => "ERR")
+  | ["absrel", a, b] => out.putStrLn (match Path.rel (unhex a) (Path.clean (unhex b)) with | some r => hexOf r | none => "ERR")
+  | _ => out.putStrLn "bad-op"
+  pathLoop inp out
+
+/-- `cmd=<hex> wd=<hex> (i|o):<hexpath>:<flags>:<hexsum>…` -> definition checksum of the normal form -/
+partial def stageDefLoop (inp out : IO.FS.Stream) : IO Unit := do
+  let line ← inp.getLine
+  if line.isEmpty then return ()
+  let toks := (line.trimAscii.toString.splitOn " ").filter (· != "")
+  if !toks.isEmpty then
+    let stg := toks.foldl (fun (stg : Stage) t =>
+      if t.startsWith "cmd=" then { stg with cmd := unhex (t.drop 4).toString }
+      else if t.startsWith "wd=" then { stg with wd := unhex (t.drop 3).toString }
+      else match t.splitOn ":" with
+        | io :: p :: fl :: _ =>
+          let a : Art := { path := unhex p, isDir := fl.contains 'd', noRec := fl.contains 'r', skip := fl.contains 's' || io == "i" }
+          if io == "i" then { stg with inputs := insertArt a stg.inputs } else if io == "o" then { stg with outputs := insertArt a stg.outputs } else stg
+        | _ => stg) {}
+    out.putStrLn (H (ba stg.defBytes))
+  stageDefLoop inp out
+
+/-- `<B> <hexA> <hexB>` -> the block-compare loop of SameContents with buffer size B -/
+partial def sameLoop (inp out : IO.FS.Stream) : IO Unit := do
+  let line ← inp.getLine
+  if line.isEmpty then return ()
+  match (line.trimAscii.toString.splitOn " ").filter (· != "") with
+  | [b, x, y] => out.putStrLn (if Same.sameContents b.toNat! (unhex x) (unhex y) then "1" else "0")
+  | _ => pure ()
+  sameLoop inp out
+
+/-- `<usesPrepare> <cwdIsRoot> <bodyOk> <preLocked>` -> `exit=<0|1> lock=<0|1>` (stream S4) -/
+partial def lockLoop (inp out : IO.FS.Stream) : IO Unit := do
+  let line ← inp.getLine
+  if line.isEmpty then return ()
+  match (line.trimAscii.toString.splitOn " ").filter (· != "") with
+  | [up, cr, bo, pl] =>
+    let root := ["p"]
+    let cwd := if cr == "1" then root else root ++ ["sub", "dir"]
+    let (ok, left) := Lock.runCommand (Lock.cmdChdirs (up == "1")) root cwd (bo == "1") (pl == "1")
+    out.putStrLn s!"exit={if ok then 0 else 1} lock={if left then 1 else 0}"
+  | _ => pure ()
+  lockLoop inp out
+
 partial def b3Loop (inp out : IO.FS.Stream) (hexMode : Bool) : IO Unit := do
   let line ← inp.getLine
   if line.isEmpty then return ()
@@ -426,6 +513,11 @@ def main (args : List String) : IO UInt32 := do
   | ["sim"] => simLoop inp out {}; return 0
   | ["b3"] => b3Loop inp out false; return 0
   | ["owner"] => ownerLoop inp out; return 0
+  | ["sum"] => sumLoop inp out []; return 0
+  | ["lock"] => lockLoop inp out; return 0
+  | ["path"] => pathLoop inp out; return 0
+  | ["stagedef"] => stageDefLoop inp out; return 0
+  | ["same"] => sameLoop inp out; return 0
   | ["b3hex"] => b3Loop inp out true; return 0
   | _ =>
     IO.eprintln "usage: dudmodel sim|b3|b3hex"
